@@ -1,5 +1,5 @@
 """C01 - every request is dispatched to exactly the operation it denotes (DESIGN.md section 3, C01)."""
-from .. import flow, paths
+from .. import flow, paths, inline
 from ..facts import callee_def, callee_resolved, short
 from ..model import load_model, snake
 from ..report import AnchorMissing
@@ -12,12 +12,27 @@ PAT = "s3s::ops::check_query_pattern"
 CONTAINS_KEY_SUFFIX = "::contains_key"
 
 
+ROUTER_RET = "core::result::Result<(&dyn s3s::ops::Operation, bool)"
+
+
+def _router_policy(db, caller, term, callee):
+    """the router may be split into stages (per method, per path kind): any function with the router's return type is part of it"""
+    if callee is None or callee.crate != "s3s" or callee.kind != "Fn" or callee.raw.get("coroutine"):
+        return False
+    if ROUTER_RET in callee.raw.get("ret", ""):
+        return len(callee.blocks) < 6000
+    return inline.default_policy(db, caller, term, callee) and len(callee.blocks) <= 40
+
+
 def find_router(db):
-    c = [b for b in db.grep("dyn s3s::ops::Operation", "bool") if b.kind == "Fn" and
-         "core::result::Result<(&dyn s3s::ops::Operation, bool)" in b.raw.get("ret", "")]
-    if len(c) != 1:
-        raise AnchorMissing("router: expected exactly one fn returning S3Result<(&dyn Operation, bool)>, found %d" % len(c))
-    return c[0]
+    c = [b for b in db.grep("dyn s3s::ops::Operation", "bool") if b.kind == "Fn" and ROUTER_RET in b.raw.get("ret", "")]
+    names = {b.name for b in c}
+    # the entry point is the one no other candidate calls
+    called = {callee_def(t) for b in c for _, t in b.calls()} | {t["callee"].get("resolved") for b in c for _, t in b.calls()}
+    roots = [b for b in c if b.name not in called]
+    if len(roots) != 1:
+        raise AnchorMissing("router: expected exactly one entry fn returning S3Result<(&dyn Operation, bool)>, found %d (of %d candidates)" % (len(roots), len(c)))
+    return inline.inlined(db, roots[0], _router_policy)
 
 
 def operation_impls(db):
@@ -81,10 +96,35 @@ def op_of_operand(body, op):
     return None
 
 
+_RET_LOCALS = {}
+
+
+def return_locals(body):
+    """the return place and every local copied into it (the return places of inlined router stages)"""
+    k = id(body)
+    if k not in _RET_LOCALS:
+        R = {0}
+        changed = True
+        while changed:
+            changed = False
+            for _, _, st in body.stmts():
+                if st["dst"]["l"] in R and not st["dst"]["proj"] and st["rv"]["k"] == "use":
+                    p = flow.op_place(st["rv"]["ops"][0])
+                    if p is not None and not p["proj"] and p["l"] not in R:
+                        R.add(p["l"])
+                        changed = True
+        _RET_LOCALS.clear()
+        _RET_LOCALS[k] = R
+    return _RET_LOCALS[k]
+
+
 def router_leaf(body, bi):
+    R = return_locals(body)
     for st in body.blocks[bi]["stmts"]:
-        if st["dst"]["l"] == 0 and not st["dst"]["proj"]:
+        if st["dst"]["l"] in R and not st["dst"]["proj"]:
             rv = st["rv"]
+            if rv["k"] == "use" and flow.op_place(rv["ops"][0]) is not None and flow.op_place(rv["ops"][0])["l"] in R:
+                continue        # hand-over from an inlined stage
             if rv["k"] == "agg" and rv.get("adt") == "core::result::Result":
                 if rv["variant"] == "Err":
                     return ("Err", bi)
